@@ -51,6 +51,19 @@ def inv_hess_dense(sk, yk):
     return H
 
 
+def middle_cond(mats):
+    """Condition number of the inverse middle matrix [[-D, L^T], [L, theta S^T S]] rebuilt from mats.S / mats.Y.
+    It governs the rounding error of every product with the compact representation, in particular when
+    more pairs than variables are stored (the Gram matrices are then singular)."""
+    if not mats.use_factor:
+        return 1.0
+    S, Y = np.asarray(mats.S), np.asarray(mats.Y)
+    SY = S.T @ Y
+    Minv = np.block([[-np.diag(np.diag(SY)), np.tril(SY, -1).T], [np.tril(SY, -1), mats.theta * (S.T @ S)]])
+    c = float(np.linalg.cond(Minv))
+    return c if np.isfinite(c) else np.inf
+
+
 class ShadowMemory:
     """Obligations of the bounded curvature-filtered history (C10)."""
 
